@@ -79,8 +79,8 @@ func c20Aliasing(c *core.Ctx) {
 	book := map[*types.Var]string{}
 	event := map[*types.Var]string{}
 	for _, fl := range [][2]string{{"ObjectRegistry", "entities"}, {"ObjectEntityWatcher", "entities"}} {
-		if v := structField(c, c20sv, fl[0], fl[1]); v != nil {
-			book[v] = fl[0] + "." + fl[1]
+		if v := c20EntitiesField(c, fl[0]); v != nil {
+			book[v] = fl[0] + "." + v.Name()
 		}
 	}
 	for _, n := range []string{"Delete", "Create", "Update"} {
@@ -380,7 +380,7 @@ func c20FreshIn(g *flow.Func, fd *ast.FuncDecl, e ast.Expr, depth int) bool {
 
 func c20Snapshots(c *core.Ctx) {
 	c.Rule("R-C20-7", "every snapshot received from ObjectRegistry.configSyncChan reaches applyConfig: on every path from the receive to the next loop iteration or return applyConfig is called, unless the channel is known closed (comma-ok false / received map nil) — no content-dependent skip; the applied map is the received one or a fresh map filled unconditionally from every entry of it")
-	chanF := structField(c, c20sv, "ObjectRegistry", "configSyncChan")
+	chanF := c20SnapshotChanField(c)
 	pkg := c.Prog.Pkg(c20sv)
 	if chanF == nil || pkg == nil {
 		return
@@ -395,7 +395,7 @@ func c20Snapshots(c *core.Ctx) {
 			f := flow.NewFunc(pkg, fd)
 			var recvs []*ast.UnaryExpr
 			ast.Inspect(fd.Body, func(n ast.Node) bool {
-				if u, ok := n.(*ast.UnaryExpr); ok && u.Op == token.ARROW && c20FieldOf(f, u.X) == chanF {
+				if u, ok := n.(*ast.UnaryExpr); ok && u.Op == token.ARROW && c20FieldVia(f, u.X) == chanF {
 					recvs = append(recvs, u)
 				}
 				return true
@@ -626,4 +626,21 @@ func c20SnapshotFunc(c *core.Ctx, f *flow.Func, fd *ast.FuncDecl, cons string, r
 	}
 	fData.report(c, "R-C20-7", cons+"|applied config carries every entry of the snapshot", fd.Body,
 		sprintf("%d applyConfig call(s) take the received map or an unconditional copy of it", fData.n))
+}
+
+// c20FieldVia is c20FieldOf that also sees through a local defined once from the field
+// (`syncChan := or.configSyncChan; … <-syncChan`).
+func c20FieldVia(f *flow.Func, e ast.Expr) *types.Var {
+	if v := c20FieldOf(f, e); v != nil {
+		return v
+	}
+	lv := c20Var(f, e)
+	if lv == nil || !c20IsLocalVar(lv) {
+		return nil
+	}
+	defs := c20Defs(f, c20DeclNodeOf(f, lv), lv)
+	if len(defs) != 1 || defs[0].rhs == nil {
+		return nil
+	}
+	return c20FieldOf(f, defs[0].rhs)
 }
